@@ -681,6 +681,10 @@ func c13Directed() []C13Case {
 			C13Case{CT: "application/json", Skip: skip, Params: []C13Param{{In: "query", Name: "q", Schema: &GSchema{HasTypes: true, Types: []string{"array"}, Items: &GSchema{HasTypes: true, Types: []string{"integer"}}, Default: []any{1.0, 2.0}}}}},
 			C13Case{CT: "application/json", Skip: skip, Params: []C13Param{{In: "query", Name: "q", Explode: bp(true), Schema: &GSchema{HasTypes: true, Types: []string{"array"}, Items: &GSchema{HasTypes: true, Types: []string{"integer"}}, Default: []any{1.0, 2.0}}}}},
 			C13Case{CT: "application/json", Skip: skip, Params: []C13Param{{In: "query", Name: "q", Explode: bp(false), Schema: &GSchema{HasTypes: true, Types: []string{"array"}, Items: &GSchema{HasTypes: true, Types: []string{"integer"}}, Default: []any{1.0, 2.0}}}}},
+			// defaults whose shortest float text is in exponent form: the forwarded text must still be read as the declared type
+			C13Case{CT: "application/json", Skip: skip, Params: []C13Param{{In: "query", Name: "big", Schema: intD(1000000)}, {In: "header", Name: "X-Big", Schema: intD(123456789)}, {In: "cookie", Name: "cbig", Schema: intD(100000000000)}}},
+			C13Case{CT: "application/json", Skip: skip, Params: []C13Param{{In: "query", Name: "ids", Explode: bp(true), Schema: &GSchema{HasTypes: true, Types: []string{"array"}, Items: &GSchema{HasTypes: true, Types: []string{"integer"}}, Default: []any{1000000.0, 2.0}}}}},
+			C13Case{CT: "application/json", Skip: skip, Params: []C13Param{{In: "query", Name: "x", Schema: &GSchema{HasTypes: true, Types: []string{"number"}, Default: 1e21}}, {In: "query", Name: "y", Schema: &GSchema{HasTypes: true, Types: []string{"number"}, Default: 0.000001}}}},
 			// a path-level parameter next to an operation-level one whose name differs by case only: two parameters, two defaults
 			C13Case{CT: "application/json", Skip: skip, Params: []C13Param{{In: "query", Name: "Limit", Schema: intD(7), PathLevel: true}, {In: "query", Name: "limit", Schema: intD(3)}}},
 			C13Case{CT: "application/json", Skip: skip, Params: []C13Param{{In: "cookie", Name: "Theme", Schema: intD(7), PathLevel: true}, {In: "cookie", Name: "theme", Schema: intD(3)}}},
